@@ -54,6 +54,9 @@ def gen(ctx, k, stepper_only=False):
     grp('ct:scalar', 'sc.canon-reject', ['ct.sc.canon %s' % to32(L + (s % 1000)).hex() for s in S])
     grp('ct:scalar', 'sc.hash', ['ct.sc.hash %s' % (b + b[:7]).hex() for b in B64])
     grp('ct:scalar', 'sc.arith', ['ct.sc.arith %s %s' % (cs(s), cs(S[(i + 1) % k])) for i, s in enumerate(S)])
+    # classes of the secret under the ff::Field view: fourth powers, squares that are not fourth powers, non-squares
+    fs = [pow(c_, 4, L) for c_ in (3, 5)] + [4 * pow(c_, 4, L) % L for c_ in (3, 5)] + [2 * pow(c_, 4, L) % L for c_ in (3, 5)] + [0, 1, L - 1]
+    grp('ct:scalar', 'gp.field', ['ct.gp.field %s %s' % (cs(s), cs(S[(i + 2) % k] or 7)) for i, s in enumerate((fs + S)[:max(k, 9)])])
     grp('ct:scalar', 'sc.invert', ['ct.sc.invert %s' % cs(s or 5) for s in S])
     for n in (1, 2, 5):
         grp('ct:scalar', 'sc.batchinv%d' % n, ['ct.sc.batchinv %s' % lst([cs((s + j) % L or 3) for j in range(n)]) for s in S])
